@@ -38,6 +38,24 @@ impl VxRangeBounds<u32> for Range<u32> {
     fn start_bound(&self) -> (r: Bound<&u32>) { Bound::Included(&self.start) }
     fn end_bound(&self) -> (r: Bound<&u32>) { Bound::Excluded(&self.end) }
 }
+impl VxRangeBounds<u32> for core::ops::RangeFull {
+    open spec fn vx_start(&self) -> Bound<u32> { Bound::Unbounded }
+    open spec fn vx_end(&self) -> Bound<u32> { Bound::Unbounded }
+    fn start_bound(&self) -> (r: Bound<&u32>) { Bound::Unbounded }
+    fn end_bound(&self) -> (r: Bound<&u32>) { Bound::Unbounded }
+}
+impl VxRangeBounds<u32> for core::ops::RangeFrom<u32> {
+    open spec fn vx_start(&self) -> Bound<u32> { Bound::Included(self.start) }
+    open spec fn vx_end(&self) -> Bound<u32> { Bound::Unbounded }
+    fn start_bound(&self) -> (r: Bound<&u32>) { Bound::Included(&self.start) }
+    fn end_bound(&self) -> (r: Bound<&u32>) { Bound::Unbounded }
+}
+impl VxRangeBounds<u32> for core::ops::RangeTo<u32> {
+    open spec fn vx_start(&self) -> Bound<u32> { Bound::Unbounded }
+    open spec fn vx_end(&self) -> Bound<u32> { Bound::Excluded(self.end) }
+    fn start_bound(&self) -> (r: Bound<&u32>) { Bound::Unbounded }
+    fn end_bound(&self) -> (r: Bound<&u32>) { Bound::Excluded(&self.end) }
+}
 pub assume_specification<'a, T: Clone>[ Bound::<&'a T>::cloned ](b: Bound<&'a T>) -> (r: Bound<T>) where T: Clone
     ensures r == bound_val(b);
 
